@@ -26,7 +26,8 @@ TOL_F = 1.0e-6
 
 
 def layouts(tier, rng):
-    pool = ["h2", "h2o", "ch4", "oh-", "nh3", "hf"]
+    scf_driver.MOLS["n2"] = ([7, 7], [[0.0, 0.0, 0.0], [1.10, 0.05, 0.0]], 0, 1)
+    pool = ["h2", "h2o", "ch4", "oh-", "nh3", "hf", "n2"]
     combos = [list(c) for c in itertools.combinations(pool, 2)] + [["h2o", "h2", "oh-"], ["ch4", "h2o", "h2"], ["nh3", "hf", "h2o"]]
     solvers = [dict(scf_converger=[0, 0.2]), dict(scf_converger=[1]), dict(scf_converger=[2]), dict(scf_converger=[1], sp2=[True, 1e-7]), dict(scf_converger=[2], sp2=[True, 1e-7])]
     out = []
@@ -38,8 +39,22 @@ def layouts(tier, rng):
                         p = dict(sv)
                         p["scf_eps"] = 1.0e-10
                         out.append(dict(mols=mols, order=list(order), extra_pad=extra, pad_coord=padc, params=p))
+    # finite electronic temperature (Krylov XL-BOMD branch) and excited states in mixed batches
+    for mols in (["h2o", "h2co"], ["oh-", "h2co"], ["nh3", "h2o"]):
+        for order in ([0, 1], [1, 0]):
+            for tel in (1500.0, 8000.0):
+                out.append(dict(mols=mols, order=order, extra_pad=0, pad_coord=0.0, params=dict(scf_converger=[1], scf_eps=1.0e-10), path="xlksa", T_el=tel))
+    for mols in (["h2o", "h2co"], ["nh3", "h2co"], ["h2o", "ch4"]):
+        for nst in (2, 3):
+            out.append(dict(mols=mols, order=[0, 1], extra_pad=0, pad_coord=0.0, params=dict(scf_converger=[1], scf_eps=1.0e-10, excited_states={"n_states": nst, "method": "cis", "tolerance": 1e-8})))
     if tier == "quick":
-        must = [l for l in out if l["mols"] == ["h2o", "h2", "oh-"] and l["order"] == [2, 0, 1] and l["extra_pad"] == 2 and l["pad_coord"] == 1.0e3 and "sp2" in l["params"] and l["params"]["scf_converger"] == [1]]
+        special = [l for l in out if l.get("path") == "xlksa" or "excited_states" in l["params"]]
+        out = [l for l in out if l not in special]
+        must = [l for l in out if l["mols"] == ["ch4", "n2"] and l["params"]["scf_converger"] == [1] and "sp2" not in l["params"] and l["extra_pad"] == 0 and l["pad_coord"] == 0.0]
+        must += [l for l in special if (l.get("path") == "xlksa" and l["mols"] in (["oh-", "h2co"], ["h2o", "h2co"]) and l["T_el"] == 8000.0 and l["order"] == [0, 1])
+                 or ("excited_states" in l["params"] and l["mols"] == ["h2o", "h2co"] and l["params"]["excited_states"]["n_states"] == 3)]
+        must += rng.sample([l for l in special if l not in must], 3)
+        must += [l for l in out if l["mols"] == ["h2o", "h2", "oh-"] and l["order"] == [2, 0, 1] and l["extra_pad"] == 2 and l["pad_coord"] == 1.0e3 and "sp2" in l["params"] and l["params"]["scf_converger"] == [1]]
         out = must + rng.sample([l for l in out if l not in must], 14)
     else:
         out = rng.sample(out, min(len(out), 400))
@@ -81,8 +96,8 @@ def main(tier):
         solo_jobs = {}
         for l in lay:
             for m in l["mols"]:
-                k = common.sha([m, l["params"]])
-                solo_jobs.setdefault(k, dict(mols=[m], params=l["params"]))
+                k = common.sha([m, l["params"], l.get("path"), l.get("T_el")])
+                solo_jobs.setdefault(k, dict(mols=[m], params=l["params"], path=l.get("path"), T_el=l.get("T_el")))
         keys = sorted(solo_jobs)
         allres = common.run_forked([solo_jobs[k] for k in keys] + lay, batch_driver.run_values, timeout=900)
         solo = {}
@@ -95,12 +110,12 @@ def main(tier):
         n_cmp = 0
         samples = []
         for l, rr in zip(lay, allres[len(keys) :]):
-            fields = dict(solver=l["params"]["scf_converger"][0], sp2="sp2" in l["params"], extra_pad=l["extra_pad"], far_padding=l["pad_coord"] != 0.0)
+            fields = dict(solver=l["params"]["scf_converger"][0], sp2="sp2" in l["params"], extra_pad=l["extra_pad"], far_padding=l["pad_coord"] != 0.0, path=l.get("path", "scf"), excited="excited_states" in l["params"])
             if not rr.get("ok"):
                 rep.violation("batch_job_failed", {"layout": l, "error": rr.get("error")}, **fields)
                 continue
             for m, o in rr["result"].items():
-                s = solo.get(common.sha([m, l["params"]]))
+                s = solo.get(common.sha([m, l["params"], l.get("path"), l.get("T_el")]))
                 if s is None:
                     continue
                 n_cmp += 1
@@ -109,7 +124,8 @@ def main(tier):
                     continue
                 if o["pad_force"] != 0.0:
                     rep.violation("padding_atom_has_force", {"layout": l, "mol": m, "value": o["pad_force"]}, **fields)
-                for name in ("Etot", "Hf", "force", "q", "gap", "e_mo", "dipole"):
+                names_cmp = ("Etot", "Hf", "force", "q", "gap", "e_mo", "dipole") + (("cis",) if "cis" in o and "cis" in s else ())
+                for name in names_cmp:
                     d = cmp(o[name], s[name], 0)
                     tol = TOL_F if name in ("force", "dipole") else TOL_E
                     worst[name] = max(worst.get(name, 0.0), d / tol if d != float("inf") else 0.0)
